@@ -785,6 +785,7 @@ func (f *Frame) execMapUpdate(st *State, x *ssa.MapUpdate) {
 	k := f.val(x.Key).T
 	v := f.val(x.Value)
 	f.escapeCheck(v, x)
+	vc.runAnchors(f, st, x, false)
 	vc.oblige(st, "mapnil", vc.anchorOf(x), Not(Eq(m, IntLit(0))), nil, "assignment to entry in nil map", x.Pos())
 	dn, vn, ds, vs := env.mapHeaps(x.Map.Type())
 	vc.checkFrame(st, dn, ds, m, x)
@@ -792,6 +793,7 @@ func (f *Frame) execMapUpdate(st *State, x *ssa.MapUpdate) {
 	vh := st.Heap(vc, vn, vs)
 	st.SetHeap(dn, Store(dh, m, Store(Select(dh, m), k, True)))
 	st.SetHeap(vn, Store(vh, m, Store(Select(vh, m), k, v.T)))
+	vc.runAnchors(f, st, x, true)
 }
 
 func (f *Frame) execSlice(st *State, x *ssa.Slice) {
